@@ -7,12 +7,14 @@ CFG = dict(
          "second WriteHeader calls), the real DataPublisher.PublishData with every subset of the three writers (histories of START, "
          "publish batches of 0..100 records, Flush, SetPause(true/false), STOP; publishes before START and after STOP; ~5% records of a "
          "different length, ~3% with a wrong coefficient count), and the real AnySource.WriteControl START/PAUSE/UNPAUSE/STOP on a scripted "
-         "source with 1..4 channels. 0..200 records per file, record lengths 1..4096 (LJH3 variable), frame counts / timestamps 0, 2^62, "
+         "source with 1..4 channels, including the channel's projectors/basis being set AGAIN through SetProjectorsBasis after START — before "
+         "and after the channel's first record, with the same shape and other contents or another number of bases (the OFF header and matrix "
+         "block must be those of START) — and pauses issued before START (every setter clears the flag, OFF alone too). 0..200 records per file, record lengths 1..4096 (LJH3 variable), frame counts / timestamps 0, 2^62, "
          "MaxInt64, negative and random, all geometry / sub-frame parameters (15% arbitrary ints), time bases over the whole positive "
          "float64 range, projector shapes 1..8 bases (direct OFF writer: any two shapes), float fields as arbitrary bit patterns incl. "
          "NaN/Inf. Files are written under $VERIF_WORKDIR, read back as bytes, parsed by the doc-derived Lean parsers and compared with "
          "the model's file. Non-trivial = a file with a header and at least one record was judged; distinct by input line.",
-    nontrivial=["ljh22-records", "ljh3-records", "off-records", "ljh22-100+", "ljh3-100+", "off-100+"],
+    nontrivial=["remodel-before-first", "ljh22-records", "ljh3-records", "off-records", "ljh22-100+", "ljh3-100+", "off-100+"],
     jobs=seeds(1, 4),
     lean_files=["C05", "ComposeFile", "ComposeEndToEnd", "EmtBounds"],
     trusted_base=["Go int32/int64 conversions and wrap-around as transcribed (twos / mod 2^n); float32(x) conversions are done by Go and "
@@ -24,7 +26,7 @@ CFG = dict(
                   "never overflows in the generated histories (a full queue is property C07)"],
     assumptions=["files can be created (CreateFile succeeds)", "the time base is a positive finite number",
                  "LJH 2.2 header strings (channel, source, pixel names, version strings) contain no CR/LF",
-                 "pause/unpause are only issued while writing is active (the pause flag before START is property C06)"],
+                 "a pause before START is cleared by START for every format (the reported pause state is property C06)"],
     timeout=dict(quick=900, thorough=3600),
 )
 
